@@ -4,6 +4,7 @@ package main
 // Every verdict is computed from the source currently in -repo; nothing in the repository is executed.
 
 import (
+	"time"
 	"flag"
 	"fmt"
 	"os"
@@ -29,6 +30,7 @@ type propCheck struct {
 	meta propMeta
 	run  func(c *Ctx)
 	all  bool // needs the whole program in the thorough tier
+	thorough func(c *Ctx) // extra work of the thorough tier
 }
 
 var registry = map[string]*propCheck{}
@@ -43,6 +45,7 @@ func main() {
 	replay := flag.String("replay", "", "violations file to replay (re-runs the property and prints the listed constructs)")
 	selftest := flag.Bool("selftest", false, "run only the rule-sensitivity self-test of the property")
 	list := flag.Bool("list", false, "list properties")
+	flag.BoolVar(&verbose, "v", false, "print every obligation")
 	ov := overlayFlag{}
 	flag.Var(ov, "overlay", "file=replacement (repeatable): analyse the tree with file replaced")
 	flag.Parse()
@@ -75,6 +78,7 @@ func main() {
 		os.Exit(2)
 	}
 	code := 2
+	t0 := time.Now()
 	func() {
 		defer func() {
 			if r := recover(); r != nil {
@@ -102,6 +106,7 @@ func main() {
 			return
 		}
 		c := newCtx(*prop, *tier, w)
+		c.start = t0
 		c.ovFiles = ov
 		pc.run(c)
 		if *tier == "thorough" && len(ov) == 0 {
